@@ -583,18 +583,36 @@ def case_algebra(c):
             except Exception as e:
                 V('noncontiguous_input', '%s input: a non-contiguous view was rejected: %s: %s' % (kind, type(e).__name__, e))
         # get_pfb_voltages lower half
-        for kind in ('noise_tone', 'int_ramp'):
+        # (real and complex input; num_taps / num_branches also as numpy fixed-width integers whenever they fit)
+        for kind in ('noise_tone', 'int_ramp', 'complex'):
             x = make_input(kind, cw * N, M, P, seed, 24)
             X = ch(x)
             ref = R.ref_pfb(x, w, M, P)
-            Vv = pf.get_pfb_voltages(x, M, P, R.window_arg(win))
-            n_eval += 1
-            if getattr(Vv, 'ndim', 0) != 2 or Vv.shape[0] != X.shape[0] or Vv.shape[1] < K:
-                V('lower_half_shape', 'get_pfb_voltages returned shape %s, channelize %s'
-                  % (getattr(Vv, 'shape', None), X.shape), site='get_pfb_voltages')
-            else:
-                cmp_.same(np.ascontiguousarray(Vv[:, :K]), X, ref, TOL * _scale(x), 'lower_half',
-                          'get_pfb_voltages(x)[:, :P/2] vs channelize(x), %s input' % kind, site='get_pfb_voltages')
+            for it in (None, 'uint8', 'int16', 'uint16'):
+                if it is not None and (kind == 'int_ramp' or max(M, P) > np.iinfo(it).max):
+                    continue
+                tM, tP = (M, P) if it is None else (np.dtype(it).type(M), np.dtype(it).type(P))
+                tag = '' if it is None else ' [num_taps, num_branches as %s]' % it
+                try:
+                    Vv = pf.get_pfb_voltages(x, tM, tP, R.window_arg(win))
+                except Exception as e:
+                    V('raised', 'get_pfb_voltages on %s input%s: %s: %s' % (kind, tag, type(e).__name__, e), site='get_pfb_voltages')
+                    continue
+                n_eval += 1
+                if getattr(Vv, 'ndim', 0) != 2 or Vv.shape[0] != X.shape[0] or Vv.shape[1] < K:
+                    V('lower_half_shape', 'get_pfb_voltages%s returned shape %s, channelize %s'
+                      % (tag, getattr(Vv, 'shape', None), X.shape), site='get_pfb_voltages')
+                else:
+                    cmp_.same(np.ascontiguousarray(Vv[:, :K]), X, ref, TOL * _scale(x), 'lower_half',
+                              'get_pfb_voltages(x)[:, :P/2]%s vs channelize(x), %s input' % (tag, kind), site='get_pfb_voltages')
+                if it is not None:
+                    try:
+                        wt = np.asarray(pf.get_pfb_window(tM, tP, R.window_arg(win)))
+                        if wt.shape != (M * P,) or not np.array_equal(wt, np.asarray(pf.get_pfb_window(M, P, R.window_arg(win)))):
+                            V('window_typed', 'get_pfb_window(%s(%d), %s(%d)) has shape %s / differs from the window for plain integers'
+                              % (it, M, it, P, wt.shape), site='get_pfb_window')
+                    except Exception as e:
+                        V('raised', 'get_pfb_window%s: %s: %s' % (tag, type(e).__name__, e), site='get_pfb_window')
     except Exception as e:
         V('raised', '%s: %s' % (type(e).__name__, e))
     return {'viol': viol, 'n': n_eval, 'traces': n_eval, 'transitions': n_eval,
